@@ -101,9 +101,20 @@ Theorem C06_live_partial : forall minada pack est st merge ins (outs : list outp
 Proof. exact acf_live. Qed.
 Print Assumptions C06_live_partial.
 
+(* the packing does not raise either when max_val_size is at least 100: an asset id has at most 28 + 32 bytes and a
+   quantity is below 2^64, so one asset alone in a fresh output needs at most 85 bytes (real size test ovf_c) *)
+Theorem C06_pack_no_raise : forall cpb addr mvs change,
+  100 <= mvs -> 0 <= cpb <= 2 ^ 50 -> (lenN addr < 256)%N -> wfv change -> 0 <= coin change < two64z ->
+  Forall (fun kv => snd kv <> [] /\
+                    Forall (fun nq => (lenN (fst kv) <= 28)%N /\ (lenN (fst nq) <= 32)%N /\ 0 < snd nq < two64z) (snd kv))
+         (massets change) ->
+  exists arr, pack_c cpb addr mvs change = Some arr.
+Proof. exact pack_c_no_raise. Qed.
+Print Assumptions C06_pack_no_raise.
+
 (* the code before fix d736adf ("token change is never silently dropped when packing change outputs"):
    for max_val_size below the size of one asset the packing was not a partition — tokens vanished *)
 Theorem C06_pack_break_refuted :
-  exists cpb addr mvs change, wfv change /\ ~ covers (pack_model_old (ovf_c cpb addr mvs) change) (massets change).
+  exists cpb addr mvs change, wfv change /\ ~ covers (pack_model_old (ovf_c cpb addr mvs 0) change) (massets change).
 Proof. exact pack_break_refuted. Qed.
 Print Assumptions C06_pack_break_refuted.
